@@ -185,6 +185,17 @@ type FuncSpec struct {
 	// (the Lean twin returns found? and the target afterwards).
 	ErrStruct    bool
 	ErrorsAsBind bool
+
+	// ---- (C12, JSON wrapper methods; translate_c12w.go) all default-off
+	// RecvOut: a value-returning method that ALSO changes the pointer receiver / parameter of this name: the Lean twin returns
+	// (final value of it × result); RecvOutType is its Lean type.
+	// PtrSynonyms: `x := (*T)(y)` (pointer conversion to a defined type with the same underlying struct) makes x another name for y.
+	// FieldRename: Go field name -> Lean field name (a Go field called `private` is a Lean keyword).
+	RecvOut     string
+	RecvOutType string
+	PtrSynonyms bool
+	FieldRename map[string]string
+	MapCap      bool // `make(map[K]V, n)`: the empty map (the size hint carries no meaning)
 }
 
 // StructLit: `&pkg.T{K: V, ...}` becomes `({ K := V, ... } : Lean)`, restricted to the fields in Keep.
@@ -239,6 +250,7 @@ type tr struct {
 	joinDepth   int                  // JoinIf: > 0 inside a joined branch (only error returns may leave the function)
 	continueK   []cont               // LoopStyle "state": what `continue` means inside the body of the fold
 	ctl         []ctlFrame           // LoopStyle "ctl": the enclosing control loops (innermost last)
+	syn         map[string]string    // PtrSynonyms: x -> y for `x := (*T)(y)`
 }
 
 // ctlFrame: one enclosing GoX.loopCtl loop: its state tuple and the depth of switch statements at its entry
@@ -448,7 +460,7 @@ func (t *tr) bindTarget(e ast.Expr) (binder, post string) {
 		if id, ok := sel.X.(*ast.Ident); ok {
 			a := t.ident(id.Name)
 			b := "v_" + id.Name + "_" + sel.Sel.Name
-			return b, "let " + a + " := ({ " + a + " with " + sel.Sel.Name + " := " + b + " } : type_of% " + a + ");\n" + t.pad()
+			return b, "let " + a + " := ({ " + a + " with " + t.fld(sel.Sel.Name) + " := " + b + " } : type_of% " + a + ");\n" + t.pad()
 		}
 		if mid, ok := sel.X.(*ast.SelectorExpr); ok && t.spec.NestedUpdate {
 			if id, ok := mid.X.(*ast.Ident); ok {
@@ -504,6 +516,9 @@ func (t *tr) writeCall(c *ast.CallExpr) string {
 }
 
 func (t *tr) ident(name string) string {
+	if y, ok := t.syn[name]; ok {
+		return t.ident(y)
+	}
 	if r, ok := t.spec.Rename[name]; ok {
 		return r
 	}
@@ -554,7 +569,7 @@ func (t *tr) expr(e ast.Expr) string {
 				return "Const." + x.Sel.Name
 			}
 		}
-		return "(" + t.expr(x.X) + ")." + x.Sel.Name
+		return "(" + t.expr(x.X) + ")." + t.fld(x.Sel.Name)
 	case *ast.UnaryExpr:
 		switch x.Op {
 		case token.NOT:
@@ -798,6 +813,9 @@ func (t *tr) okPattern(call ast.Expr, v string) string {
 		return v
 	}
 	name := strings.TrimPrefix(exprString(c.Args[op.Index]), "&")
+	if y, ok := t.syn[name]; ok {
+		name = y
+	}
 	if strings.Contains(name, ".") {
 		// the out-parameter is a field (`r.Data`): bind a fresh name, write it back before the continuation
 		target := c.Args[op.Index]
@@ -914,7 +932,7 @@ func (t *tr) call(c *ast.CallExpr) string {
 		at, isSlice := c.Args[0].(*ast.ArrayType)
 		zeroLen := len(c.Args) >= 2 && exprString(c.Args[1]) == "<*ast.BasicLit>" && c.Args[1].(*ast.BasicLit).Value == "0"
 		switch {
-		case isMap && len(c.Args) == 1, (isNamed || isSlice) && zeroLen:
+		case isMap && len(c.Args) == 1, isMap && len(c.Args) == 2 && t.spec.MapCap, (isNamed || isSlice) && zeroLen:
 			return "([] : List _)" // the empty map / slice (capacity carries no meaning)
 		case isSlice && len(c.Args) == 2 && exprString(at.Elt) == "byte":
 			return "(GoX.zeros " + t.expr(c.Args[1]) + ")" // zero bytes
@@ -1237,6 +1255,13 @@ func (t *tr) ret1(r *ast.ReturnStmt) string {
 }
 
 func (t *tr) ret0(r *ast.ReturnStmt) string {
+	if t.spec.RecvOut != "" {
+		return "(" + t.ident(t.spec.RecvOut) + ", " + t.ret00(r) + ")"
+	}
+	return t.ret00(r)
+}
+
+func (t *tr) ret00(r *ast.ReturnStmt) string {
 	if len(r.Results) == 0 && t.spec.InitResults {
 		return t.nakedReturn(r) // named results (translate_ext.go)
 	}
@@ -1867,7 +1892,7 @@ func (t *tr) block(stmts []ast.Stmt, k cont) string {
 			if sel, ok := x.Lhs[0].(*ast.SelectorExpr); ok && (t.spec.LetIf || (t.spec.PlainUpdate && x.Tok == token.ASSIGN)) {
 				if id, ok := sel.X.(*ast.Ident); ok {
 					v := t.ident(id.Name)
-					return "let " + v + " := { " + v + " with " + sel.Sel.Name + " := " + t.expr(x.Rhs[0]) + " };\n" + t.pad() + rest()
+					return "let " + v + " := { " + v + " with " + t.fld(sel.Sel.Name) + " := " + t.expr(x.Rhs[0]) + " };\n" + t.pad() + rest()
 				}
 			}
 			if c, ok := x.Rhs[0].(*ast.CallExpr); ok && exprString(c.Fun) == "new" && len(c.Args) == 1 {
@@ -1888,7 +1913,7 @@ func (t *tr) block(stmts []ast.Stmt, k cont) string {
 			if sel, ok := x.Lhs[0].(*ast.SelectorExpr); ok && x.Tok == token.ASSIGN && t.spec.PlainUpdate {
 				if id, ok := sel.X.(*ast.Ident); ok {
 					v := t.ident(id.Name)
-					return "let " + v + " := { " + v + " with " + sel.Sel.Name + " := " + t.expr(x.Rhs[0]) + " };\n" + t.pad() + rest()
+					return "let " + v + " := { " + v + " with " + t.fld(sel.Sel.Name) + " := " + t.expr(x.Rhs[0]) + " };\n" + t.pad() + rest()
 				}
 				if t.spec.NestedUpdate {
 					b, post := t.bindTarget(x.Lhs[0])
@@ -2434,6 +2459,9 @@ func translateFunc(fset *token.FileSet, fd *ast.FuncDecl, spec *FuncSpec) (strin
 			}
 		}
 	}
+	if spec.RecvOut != "" {
+		rt = "(" + spec.RecvOutType + " × " + rt + ")"
+	}
 	t := &tr{spec: spec, fset: fset, indent: 1, fresh: map[string]bool{}, declared: map[string]bool{}, rt: "(" + rt + ")",
 		varTypes: map[string]string{}, aliases: map[string][2]string{}}
 	t.funcVals = map[string]bool{}
@@ -2484,6 +2512,9 @@ func hasReturn(n ast.Node) bool {
 
 // imperativeAssign: the assignment forms of the imperative style (see FuncSpec.Imperative)
 func (t *tr) imperativeAssign(x *ast.AssignStmt, stmts []ast.Stmt, k cont, rest cont) (string, bool) {
+	if t.spec.PtrSynonyms && t.ptrSynonym(x) { // translate_c12w.go
+		return rest(), true
+	}
 	// v, ok := e.(T)   ->   let (v, ok) := (F e)
 	if len(x.Lhs) == 2 && len(x.Rhs) == 1 && t.spec.TypeAsserts != nil {
 		if ta, ok := x.Rhs[0].(*ast.TypeAssertExpr); ok && ta.Type != nil {
